@@ -12,7 +12,7 @@ EXTENDS JMES, Json, Toks
 CONSTANTS Emit, Prop, Lengths, Seeds
 
 VARIABLES inst    \* [n, pat, str, seed]
-Init == inst \in [n : Lengths, pat : 1..5, str : BOOLEAN, seed : Seeds]
+Init == inst \in [n : Lengths, pat : 1..9, str : BOOLEAN, seed : Seeds]
 Next == UNCHANGED inst
 Spec == Init /\ [][Next]_inst
 
@@ -25,12 +25,18 @@ KeyNum(n, pat, seed, i) ==
     [] pat = 3 -> (n - i) \div 3                     \* descending blocks of three
     [] pat = 4 -> Lcg(seed, i) % 5                   \* pseudo-random with many ties
     [] pat = 5 -> Lcg(seed + 1, i) % 10              \* pseudo-random over every glyph
+    \* monotone runs with a single tie (what a run-detecting sort special-cases)
+    [] pat = 6 -> IF i <= 2 THEN n ELSE n + 2 - i    \* two equal maxima, then strictly descending
+    [] pat = 7 -> IF i >= n - 1 THEN 1 ELSE n + 1 - i \* strictly descending, two equal minima last
+    [] pat = 8 -> IF 2 * i <= n THEN i ELSE n + 1 - i \* ascending, then descending over the same keys
+    [] pat = 9 -> ((n - i) % ((n \div 2) + 1))       \* two descending runs
 \* string keys across the Unicode range, in code point order by index
 Glyph == <<<<36>>, <<97>>, <<127>>, <<233>>, <<2048>>, <<65535>>, <<65536>>, <<128512>>, <<97, 97>>, <<97, 233>>>>
 \* sorted order of Glyph by code points: $ < a < aa < a,e-acute < DEL < e-acute < U+0800 < U+FFFF < U+10000 < emoji
 KeyOf(n, pat, str, seed, i) ==
   LET k == KeyNum(n, pat, seed, i) IN
-  IF str THEN Str(Glyph[(k % Len(Glyph)) + 1]) ELSE JInt(k - 3)
+  IF str THEN (IF pat <= 5 THEN Str(Glyph[(k % Len(Glyph)) + 1]) ELSE Str(<<48 + ((k \div 100) % 10), 48 + ((k \div 10) % 10), 48 + (k % 10)>>))
+  ELSE JInt(k - 3)
 
 ArrOf(i) == Arr([j \in 1..i.n |-> Obj(<<Mem(<<107>>, KeyOf(i.n, i.pat, i.str, i.seed, j)), Mem(<<112>>, JInt(j))>>)])
 DocOf(i) == Obj(<<Mem(<<120>>, ArrOf(i))>>)
